@@ -20,7 +20,7 @@ ASSUMPTIONS = [
 def plan(tier, seed):
     sp = progwork.shards(tier, 1500, 100000, exhaustive=(tier == 'thorough'))
     from hv import realwork
-    n = 3 if tier == 'quick' else 40
+    n = 4 if tier == 'quick' else 40
     for y in (2021, 2022, 2023):
         sp.append({'kind': 'cli', 'year': y, 'families': ['F8', 'F0', 'F2', 'F3', 'F1', 'F4'], 'n': n})
         sp.append({'kind': 'cli', 'year': y, 'families': ['F8', 'F10', 'F9', 'F5', 'F8', 'F6'], 'n': n})
@@ -48,6 +48,17 @@ def run_cli_history(spec, tier, seed):
         try:
             path = os.path.join(tmp, 'in.ini')
             s1, s2 = os.path.join(tmp, 's1.ini'), os.path.join(tmp, 's2.ini')
+            if k % 2 == 1:
+                # a nearly complete file: every section is there already, only a few values are missing
+                p0 = scen.Persona(year, fam, f'c13cli:{seed}:{k}')
+                scen.solve_persona(p0)
+                full = dict(p0.answers)
+                rng_ = __import__('random').Random(f'{seed}:{k}:{year}')
+                cand = [q for q in sorted(full) if sum(1 for q2 in full if q2.split('.')[0] == q.split('.')[0]) > 2]
+                drop = set(rng_.sample(cand, min(len(cand), rng_.randint(1, 4))))
+                c20.write_ini(path, {q: v for q, v in full.items() if q not in drop})
+                p = scen.Persona(year, fam, f'c13cli:{seed}:{k}', overrides=full)
+                res.count('cli_histories_from_nearly_complete_file')
             current = {}
             orig_prompt = hx.habutax.prompt_input
 
@@ -81,6 +92,12 @@ def run_cli_history(spec, tier, seed):
                 hx.habutax.prompt_input = orig_prompt
             res.evaluations += 1
             res.count('cli_histories')
+            if r1.exc is None and given:
+                written = c20.parse(path)
+                notw = [(nm, t) for nm, t in given if written.get(c20._lk(nm)) != t.strip()]
+                if notw:
+                    res.violation('C13|cli|answers-not-written-back', f'{year} {fam}: run 1 ended normally with --writeback-input but the file lacks the answers {notw[:3]}',
+                                  {'engine': 'cli-history', 'persona': p.describe(), 'shard': spec})
             if r1.exc is not None or 'Successfully solved' not in r1.stdout:
                 res.count('cli_run1_unsolved')
                 continue
